@@ -57,6 +57,7 @@ static F real(const char* name) {
 } // namespace verif
 
 using namespace verif;
+std::function<void(const std::string&, const std::string&, const std::string&)> g_onSetXattr;
 
 extern "C" {
 
@@ -92,14 +93,12 @@ int setxattr(const char* path, const char* name, const void* value, size_t size,
   if (syscall(SYS_newfstatat, AT_FDCWD, path, &sb, 0) != 0) { errno = ENOENT; return -1; }
   std::string v((const char*)value, size);
   xattrStore()[path][name] = v;
-  if (ip().logXattr) {
-    evEmit(J().str("e", "XattrSet").str("path", path).str("name", name).str("val", v));
-  }
+  if (g_onSetXattr) g_onSetXattr(path, name, v);
   return 0;
 }
 
 // ---------------------------------------------------------------- identity
-int fstat(int fd, struct stat* buf) {
+static int doFstat(int fd, struct stat* buf) {
   long r = syscall(SYS_newfstatat, fd, "", buf, AT_EMPTY_PATH);
   if (r != 0) return -1;
   if (ip().active && S_ISDIR(buf->st_mode)) {
@@ -108,6 +107,95 @@ int fstat(int fd, struct stat* buf) {
     if (it != g.end()) buf->st_ino = (ino_t)it->second;
   }
   return 0;
+}
+int fstat(int fd, struct stat* buf) { return doFstat(fd, buf); }
+int fstat64(int fd, struct stat64* buf) { return doFstat(fd, (struct stat*)buf); }
+
+// ---------------------------------------------------------------- open family / write
+static std::string fullPath(int dirfd, const char* path) {
+  if (!path) return "";
+  if (path[0] == '/') return path;
+  if (dirfd == AT_FDCWD) return path;
+  return fdPath(dirfd) + "/" + path;
+}
+static int doOpenat(int dirfd, const char* path, int flags, mode_t mode) {
+  auto& i = ip();
+  std::string redir;
+  if (i.active) {
+    redir = redirect(path);
+    if (redir != (path ? path : "")) { path = redir.c_str(); dirfd = AT_FDCWD; }
+    std::string full = fullPath(dirfd, path);
+    if (ours(full)) {
+      if (i.onOpen) {
+        int e = i.onOpen(full, flags);
+        if (e > 0) { errno = e; return -1; }
+      }
+      int fd = (int)syscall(SYS_openat, dirfd, path, flags, mode);
+      if (fd >= 0 && i.onOpened) i.onOpened(full, flags);
+      return fd;
+    }
+  }
+  return (int)syscall(SYS_openat, dirfd, path, flags, mode);
+}
+int openat(int dirfd, const char* path, int flags, ...) {
+  mode_t mode = 0;
+  if (flags & (O_CREAT | O_TMPFILE)) { va_list ap; va_start(ap, flags); mode = va_arg(ap, mode_t); va_end(ap); }
+  return doOpenat(dirfd, path, flags, mode);
+}
+int openat64(int dirfd, const char* path, int flags, ...) {
+  mode_t mode = 0;
+  if (flags & (O_CREAT | O_TMPFILE)) { va_list ap; va_start(ap, flags); mode = va_arg(ap, mode_t); va_end(ap); }
+  return doOpenat(dirfd, path, flags, mode);
+}
+int open(const char* path, int flags, ...) {
+  mode_t mode = 0;
+  if (flags & (O_CREAT | O_TMPFILE)) { va_list ap; va_start(ap, flags); mode = va_arg(ap, mode_t); va_end(ap); }
+  return doOpenat(AT_FDCWD, path, flags, mode);
+}
+int open64(const char* path, int flags, ...) {
+  mode_t mode = 0;
+  if (flags & (O_CREAT | O_TMPFILE)) { va_list ap; va_start(ap, flags); mode = va_arg(ap, mode_t); va_end(ap); }
+  return doOpenat(AT_FDCWD, path, flags, mode);
+}
+static FILE* doFopen(const char* path, const char* mode, const char* sym) {
+  auto& i = ip();
+  std::string redir;
+  if (i.active) {
+    redir = redirect(path);
+    path = redir.c_str();
+    if (ours(redir) && i.onOpen) {
+      int e = i.onOpen(redir, (mode && (mode[0] == 'w' || mode[0] == 'a')) ? O_WRONLY : O_RDONLY);
+      if (e > 0) { errno = e; return nullptr; }
+    }
+  }
+  using F = FILE* (*)(const char*, const char*);
+  static F r64 = real<F>("fopen64");
+  (void)sym;
+  FILE* f = r64(path, mode);
+  if (f && i.active && ours(path) && i.onOpened)
+    i.onOpened(path, (mode && (mode[0] == 'w' || mode[0] == 'a')) ? O_WRONLY : O_RDONLY);
+  return f;
+}
+FILE* fopen(const char* path, const char* mode) { return doFopen(path, mode, "fopen"); }
+FILE* fopen64(const char* path, const char* mode) { return doFopen(path, mode, "fopen64"); }
+
+ssize_t write(int fd, const void* buf, size_t n) {
+  auto& i = ip();
+  if (i.active && fd > 2 && i.onWrite) {
+    std::string p = fdPath(fd);
+    if ((!i.kmsgPath.empty() && p == i.kmsgPath) || ours(p)) {
+      i.onWrite(p, std::string((const char*)buf, n));
+    }
+  }
+  return syscall(SYS_write, fd, buf, n);
+}
+
+struct dirent* readdir(DIR* d) {
+  using F = struct dirent* (*)(DIR*);
+  static F r = real<F>("readdir");
+  struct dirent* e = r(d);
+  if (e && ip().active && ip().clearDType) e->d_type = DT_UNKNOWN;
+  return e;
 }
 
 // ---------------------------------------------------------------- signals & reaping
